@@ -71,7 +71,10 @@ def gen_enum(rng, idx, n_enabled, placement, generics, kinds, robust=False):
             pool = ["NoDefault"]  # a disabled variant may hold a type without Default
         tys = [rng.choice(pool) for _ in range(nf)]
         extra = ""
-        if not dis and not robust and rng.random() < 0.15:
+        if not dis and not robust and kind == "tuple" and nf == 1 and tys[0] in ("u8", "String", "Seven") and rng.random() < 0.3:
+            # default_with belongs to EnumString: the iterator still yields Default::default() payloads
+            extra = '#[strum(default_with = "dw_%s")]' % tys[0].lower()
+        elif not dis and not robust and rng.random() < 0.15:
             extra = rng.choice(['#[strum(serialize = "x%d")]' % vi, '#[strum(to_string = "t%d")]' % vi,
                                 '#[strum(message = "m")]', '#[strum(props(a = "b"))]'])
         ident = "V%d" % vi
@@ -227,6 +230,7 @@ def generate(rng, seed, size):
     out.append("// @generated by /verif/gen/gen_corpus.py --seed %d (engine c05, size %s). Do not edit.\n" % (seed, size))
     out.append("use strum::EnumIter;\n")
     out.append("use strum_sim::c05::{mk, Arr, Case, IterHandle, NoDefault, NotSendSync, Seven, P};\n\n")
+    out.append("fn dw_u8() -> u8 { 99 }\nfn dw_string() -> String { String::from(\"not the default\") }\nfn dw_seven() -> Seven { Seven(-1) }\n\n")
     cases = []
     probes = []
     for e in enums:
@@ -276,6 +280,15 @@ def generate(rng, seed, size):
             cases.append('    Case { name: "%s_dup", n: %d, desc: "enum dup::%s (same names as %s, disabled flags flipped, unit variants)", make: || mk::<dup::%s>(dup::exp_%s_dup()) },\n'
                          % (e["name"], len(en), e["name"], e["name"], e["name"], e["name"].lower()))
         out.append("}\n\n")
+    # a module in which `Default` and `core` mean something else: the generated code must keep using ::core's
+    # (a local `Some`/`Option` is outside the domain on HEAD: size_hint writes an unqualified `Some(t)`)
+    out.append("pub mod shadow {\n    use strum::EnumIter;\n    pub trait Default { fn default() -> Self; }\n"
+               "    impl Default for u8 { fn default() -> u8 { 42 } }\n    impl Default for String { fn default() -> String { String::from(\"shadow\") } }\n"
+               "    pub mod core { pub mod default { pub trait Default { fn default() -> Self; } impl Default for u8 { fn default() -> u8 { 43 } } } }\n"
+               "    #[derive(EnumIter, Debug, PartialEq)]\n    pub enum Sh0 { A(u8), B { x: String, y: u8 }, #[strum(disabled)] C, D }\n"
+               "    pub fn exp_sh0() -> Vec<Sh0> {\n        vec![Sh0::A(::core::default::Default::default()), Sh0::B { x: ::core::default::Default::default(), y: ::core::default::Default::default() }, Sh0::D]\n    }\n"
+               "}\n\n")
+    cases.append('    Case { name: "Sh0_shadow", n: 3, desc: "enum shadow::Sh0 { A(u8) B{String,u8} ~C D } in a module that defines its own Default trait and core module", make: || mk::<shadow::Sh0>(shadow::exp_sh0()) },\n')
     out.append("pub static CASES: &[Case] = &[\n")
     out.extend(cases)
     out.append("];\n")
